@@ -272,6 +272,6 @@ def od_resid(dump, i):
 
 
 PARTS = [
-    Part("statistics", strategy=case, oracle=oracle, n={"quick": 4000, "thorough": 30000},
+    Part("statistics", strategy=case, oracle=oracle, n={"quick": 6000, "thorough": 30000},
          sample=lambda c: {"alg": c["alg"], "k": c["k"], "gkf": nm.gkf_text(c["net"])[:1200]}),
 ]
